@@ -205,9 +205,15 @@ def gen_update(r: random.Random, s: dict, families=((1, 1), (2, 1)), rich: float
         intent['announce'] += [(n, [attrs['next_hop']]) for n in ns]
     if kind in ('mp', 'v4+mp'):
         f = r.choice(mpfams)
+        enh = s.get('enh') and r.random() < 0.4
+        if enh and kind == 'mp' and (1, 1) in families and r.random() < 0.4:
+            f = (1, 1)  # RFC 8950: IPv4 unicast in MP_REACH_NLRI with an IPv6 next hop
         ns = [rand_nlri(r, f[0], f[1], f in ap) for _ in range(r.choice([1, 1, 2, 6]))]
         if f[0] == 2:
             hops = r.choice([['2001:db8::ff'], ['2001:db8::ff', 'fe80::1']])
+        elif enh:
+            hops = ['2001:db8::ff']  # extended next hop negotiated for the IPv4 families
+            intent['enh'] = True
         else:
             hops = [r.choice(['192.0.2.1', '10.0.0.254'])]
         if f[1] == rw.SAFI_VPN and len(hops) > 1:
